@@ -522,6 +522,17 @@ class C20(Spec):
         k = rng.choice(["bit", "nbits", "nbits", "uint_lit", "bitarray", "bytes", "uint", "uint", "sint", "sint"])
         if k == "bit":
             return {"op": k, "v": rng.randrange(2)}
+        if not inner and rng.random() < 0.0006:
+            # long values: widths and lengths beyond the usual word / buffer sizes
+            kk = rng.choice(["nbits", "bytes", "bitarray"])
+            if kk == "nbits":
+                n = rng.choice([63, 64, 65, 128, 1000])
+                return {"op": "nbits", "n": n, "v": rng.getrandbits(n)}
+            if kk == "bytes":
+                n = rng.choice([300, 300, 4097, 4097, 8193, 8193, 8193, 70000])
+                return {"op": "bytes", "n": n, "v": bytes((rng.randrange(256) + 31 * i) & 0xFF for i in range(n)).hex()}
+            n = rng.choice([65, 65, 4097, 4097, 70001])
+            return {"op": "bitarray", "n": n, "v": format(rng.getrandbits(n), "0%db" % n)}
         if k == "nbits":
             n = rng.choice([0, 1, 2, 3, 7, 8, 9, 16, 33])
             v = rng.randrange(1 << n) if n else 0
